@@ -13,13 +13,18 @@ EXPLANATION = ("H1 panic-source cone over the MIR call graph (resolved callees, 
                "a cycle through several functions by a depth parameter compared with a constant before the recursive call; H3 on the paths of the TLV parser an `Incomplete` that stems from a "
                "parser applied to a take(len)-bounded content slice (or the cursor walking it) is never what the function returns - converted at the call, in the callee under `depth > 0` "
                "(decided by induction over the nesting), or both; H4 a decode error "
-               "leaves the driver loop with Err (dropping all reply senders).  Not decided: memory exhaustion on huge announced lengths; "
+               "leaves the driver loop with Err (dropping all reply senders); H5 a frame that has arrived completely is delivered or rejected, "
+               "never awaited: the frame decoder's path rules (shared with C06 G1 / G2) and, in the default and the gssapi configuration, "
+               "Decoder::decode on a connection without a security layer answers what the frame decoder answers - a test of its own may say "
+               "Ok(None) only for buffers too short to hold any complete element (rules/wrapper.py).  Not decided: memory exhaustion on huge announced lengths; "
                "panics inside external crates beyond the may-panic table.")
 TRUSTED = ['the frozen may-panic classification of external callees (listed in the evidence)', 'reviewed triage table rules/triage/C11.tsv']
 UNDECIDED = ['allocation size / memory exhaustion', 'panics inside external crates not marked #[track_caller] and not in the may-panic table',
              'an edit that removes the guard of a source triaged "infeasible" is not seen by the cone rule']
 ASSUMPTIONS = ['request-side code reached only through Encoder::encode is driven by the client, not the peer, and is outside this cone']
 SHARED = [('C01', ('R1.envelope-path', 'R1.decoder'), 'H6.guards-of-reviewed-sources')]      # two panic sources are reviewed as infeasible because the frame decoder guards them (only a constructed [0] reaches the control-list decoder; only Tag::StructureTag leaves the decoder): those guards are re-decided on every run
+
+QUICK_CONFIGS = ['default', 'gssapi']      # the decoder has a second form with the gssapi feature (the SASL token layer around the frame decoder): a frame that is awaited forever there wedges the connection just the same
 
 TRIAGE = os.path.join(engine.VERIF, 'rules', 'triage', 'C11.tsv')
 
@@ -56,7 +61,14 @@ def run(ctx):
 
     # ---- H5 a frame that has arrived completely is delivered or rejected, never awaited (the frame decoder's path rules, shared with C06)
     from props import C06
-    C06.check_frame_decoder(ctx, f, 'H5', 'H5')
+    dp = C06.check_frame_decoder(ctx, f, 'H5', 'H5')
+    # ... and Decoder::decode, which Framed calls, puts nothing of its own between the bytes and the frame decoder on a connection
+    # without a security layer: a test of its own that answers Ok(None) for a buffer that already holds a complete element keeps that
+    # element waiting for bytes the peer need not send - neither delivered nor rejected (rules/wrapper.py; both configurations)
+    import wrapper
+    D = hirq.Body(f, f.body(dec))
+    if D.path != dp:
+        wrapper.check(ctx, f, D, dp, 'H5.complete-frame-reaches-the-frame-decoder')
 
     # ---- H2 recursion
     cycles = G.sccs(set(parent.keys()))
